@@ -142,16 +142,86 @@ HDR_H5 = """
 
 PAR_PRE = """broadcast use vstd::std_specs::hash::group_hash_axioms;
 broadcast use axiom_string_obeys_key_model, axiom_string_ext, axiom_string_of, axiom_lower_idempotent, axiom_to_string_string;
-proof { reveal_strlit(""); reveal_strlit("="); reveal_strlit("&"); assert(""@ =~= Seq::<char>::empty()); }
+proof { reveal_strlit(""); reveal_strlit("="); reveal_strlit("&"); assert(""@ =~= Seq::<char>::empty()); assert("&"@ =~= seq!['&']); }
 let ghost P = url_pairs(*url);
+let ghost mut K: Seq<String> = Seq::empty();
+let ghost mut KV: Seq<Seq<char>> = Seq::empty();
+let ghost mut segs: Seq<Seq<char>> = Seq::empty();
+"""
+PAR_H0 = """
+    let ghost QP = query_pairs@;
+    proof { assert(pairs_view(QP) == P); }
 """
 PAR_INV0 = """
-            invariant true,
+            invariant
+                it.seq() == QP, pairs_view(QP) == P,
+                forall|j: int| 0 <= j < it.index@ ==> pairs@.contains_key(string_of(sort_key(#[trigger] P[j]))),
+                forall|sk: String| #[trigger] pairs@.contains_key(sk) ==> entry_for_key(P, it.index@ as int, sk@, pairs@[sk].0@, pairs@[sk].1@),
 """
+PAR_H1 = """
+            proof {
+                let i0 = it.index@ as int;
+                assert(it.seq()[i0] == QP[i0]);
+                assert(P[i0] == (QP[i0].0@, QP[i0].1@));
+                let skey = string_of(sort_key(P[i0]));
+                assert(skey@ =~= key@ + value@);
+                assert forall|j: int| 0 <= j < i0 + 1 implies pairs@.contains_key(string_of(sort_key(#[trigger] P[j]))) by {}
+                assert forall|sk: String| #[trigger] pairs@.contains_key(sk) implies entry_for_key(P, i0 + 1, sk@, pairs@[sk].0@, pairs@[sk].1@) by {
+                    if sk@ == skey@ { assert(sk == skey); assert(sort_key(P[i0]) == sk@); }
+                    else { assert(sk != skey); let j = choose|j: int| 0 <= j < i0 && j < P.len() && sort_key(#[trigger] P[j]) == sk@ && pairs@[sk].0@ == lower(P[j].0) && pairs@[sk].1@ == P[j].1; assert(sort_key(P[j]) == sk@); }
+                }
+            }"""
+PAR_H2 = """
+        proof {
+            K = sorted_keys_of(pairs@);
+            KV = string_views(K);
+        }"""
 PAR_INV1 = """
-            invariant true,
+            invariant
+                K == sorted_keys_of(pairs@), KV == string_views(K), ascending(KV), K.to_set() == pairs@.dom(),
+                vx_keys_remaining(&vx_it1).len() <= K.len(),
+                forall|j: int| 0 <= j < vx_keys_remaining(&vx_it1).len() ==> *(#[trigger] vx_keys_remaining(&vx_it1)[j]) == K[K.len() - vx_keys_remaining(&vx_it1).len() + j],
+                forall|j: int| 0 <= j < P.len() ==> pairs@.contains_key(string_of(sort_key(#[trigger] P[j]))),
+                forall|sk: String| #[trigger] pairs@.contains_key(sk) ==> entry_for_key(P, P.len() as int, sk@, pairs@[sk].0@, pairs@[sk].1@),
+                first == (K.len() - vx_keys_remaining(&vx_it1).len() == 0),
+                segs.len() == K.len() - vx_keys_remaining(&vx_it1).len(),
+                forall|i: int| 0 <= i < segs.len() ==> #[trigger] seg_for_key(P, KV[i], segs[i]),
+                canonicalized_parameters@ == join_amp(segs),
             decreases vx_keys_remaining(&vx_it1).len(),
 """
+PAR_H3 = """
+            proof {
+                let i0 = K.len() - vx_keys_remaining(&vx_it1).len() - 1;
+                assert(*key == K[i0] && key@ == KV[i0]);
+                assert(K.to_set().contains(K[i0]));
+            }"""
+PAR_H4 = """
+            proof {
+                let i0 = K.len() - vx_keys_remaining(&vx_it1).len() - 1;
+                assert(entry_for_key(P, P.len() as int, key@, query_pair.0@, query_pair.1@));
+                let j = choose|j: int| 0 <= j < P.len() && j < P.len() && sort_key(#[trigger] P[j]) == key@ && query_pair.0@ == lower(P[j].0) && query_pair.1@ == P[j].1;
+                if P[j].1.len() == 0 { assert(key@ =~= lower(P[j].0)); }
+                assert(p@ =~= segment(P[j]));
+                lemma_join_amp_push(segs, p@);
+                let segs0 = segs;
+                segs = segs.push(p@);
+                assert(seg_for_key(P, KV[i0], segs[i0]));
+                assert forall|i: int| 0 <= i < segs.len() implies #[trigger] seg_for_key(P, KV[i], segs[i]) by { if i < i0 { assert(seg_for_key(P, KV[i], segs0[i])); } }
+            }"""
+PAR_H5 = """
+        proof {
+            assert forall|j: int| 0 <= j < P.len() implies KV.contains(sort_key(#[trigger] P[j])) by {
+                let sk = string_of(sort_key(P[j]));
+                assert(K.to_set().contains(sk));
+                let i = choose|i: int| 0 <= i < K.len() && K[i] == sk;
+                assert(KV[i] == sort_key(P[j]));
+            }
+            if distinct_sort_keys(P) { lemma_canon_p_by_keys(P, KV, segs); }
+        }"""
+PAR_H6 = """
+    proof {
+        if query_pairs@.len() == 0 { assert(P =~= Seq::<QPair>::empty()); assert(segments(sort_pairs(P)) =~= Seq::<Seq<char>>::empty()); }
+    }"""
 
 
 def fmt_e9(u, sf, it, k, params, args, argspecs, name):
@@ -257,7 +327,15 @@ def build(u):
                     ("pairs[key].clone()", None, "pairs: &HashMap<String, (String, String)>, key: &String", "&pairs, key", "(String, String)", """
     requires pairs@.contains_key(*key),
     ensures r == pairs@[*key],""", dict(name="vx_e9_map_index_clone", local=True))],
-                hints=[])
+                hints=[
+                    ("let mut canonicalized_parameters", None, "before", PAR_H0),
+                    ("pairs.insert(", None, "after", PAR_H1),
+                    ("let mut first = true;", None, "after", PAR_H2),
+                    ("let query_pair = ", None, "before", PAR_H3),
+                    ("canonicalized_parameters.push_str(&p);", None, "after", PAR_H4),
+                    (hc.s(P1["span"][0], P1["body"][0]), None, "after", PAR_H5),
+                    ("(path, canonicalized_parameters)", None, "before", PAR_H6),
+                ])
             u.take_fn(hc, "as_sig_input",
                 pre_body="broadcast use group_items_of, axiom_clone_is_copy_u8;\nproof { reveal_strlit(\"\\n\"); }",
                 e9=[("head.method.to_string()", None, "head: &Parts", "&head", "String", "    ensures r@ == method_text(parts_method(*head)),", dict(name="vx_e9_parts_method_text", local=True)),
